@@ -1260,6 +1260,11 @@ func (app *App) performSwitchover(clusterState map[string]*nodestate.NodeState, 
 	}
 	if switchover.MasterTransition == SwitchoverTransition {
 		err = app.optimizationPhase(activeNodes, switchover, oldMaster, clusterState)
+		// the speed-up phase is over (converged, timed out or failed): restore the
+		// settings and deregister before anything is frozen
+		if offErr := app.stopActiveNodeOptimization(oldMaster, activeNodes); offErr != nil {
+			return offErr
+		}
 		if err != nil {
 			return err
 		}
